@@ -79,7 +79,7 @@ pub fn run(ctx: &Ctx, out: &mut Out, prop: &str) {
         crate::c09::replay_history(out, prop, r);
         return;
     }
-    let nseq = if c20 { ctx.share(30, 1_000) } else { ctx.share(640, 24_000) };
+    let nseq = if c20 { ctx.share(160, 2_000) } else { ctx.share(3_600, 48_000) };
     let before = log_counts();
     for i in 0..nseq {
         let gi = i * ctx.nshards + ctx.shard;
